@@ -209,6 +209,10 @@ def rule_r4(rep, program):
             r.inst({"site": f"{dname}.wrapper", "stores_aux_outputs": stores})
             if not stores:
                 r.violate(PROP, f"{dname}.wrapper:aux-not-stored", "auxiliary outputs returned with the primary value are not written to the cache", node=w, file=d.file)
+    cross = c09.wrapper_cross_call_state(program)
+    r.inst({"site": "wrappers", "cross_call_state": [c[2] for c in cross]})
+    for dname, node, what in cross:
+        r.violate(PROP, f"{dname}.wrapper:cross-call-state:{norm(node)[:40]}", f"the {dname} wrapper {what}: cache keys contain id(system), so keys remembered across calls belong to the first system object that called; for any other object of the class the auxiliary outputs are stored under the wrong keys and its own lower-order values are evaluated again", node=node, file=program.func("states", dname).file)
     return r
 
 
